@@ -1,6 +1,7 @@
 import GnpyModel
 import GnpyProofs.Lemmas.Round
 import GnpyProofs.Lemmas.Yang
+import GnpyProofs.Lemmas.YangDoc
 /- Property theorems for C18 — input documents mean the same thing in legacy and YANG form.
    Models: GnpyModel/Round.lean (decimal formatting), GnpyModel/Json.lean, GnpyModel/Yang.lean.
    Only the property theorems and their non-vacuity examples live here; helper lemmas are in
@@ -583,6 +584,163 @@ theorem raman_efficiency_fails_old :
     ramanEffToYang f7Back = .ok f7Back ∧ fiberRamanOld (.int 206) f7Back = none ∧
     (fiberRamanOld (.int 206) f7Entry).isSome = true := by
   decide
+
+/-! ### document level: `legacy_to_yang` is idempotent -/
+
+/-- **`legacy_to_yang` is the identity on a YANG-normal document that one of its own runs produced.**
+`yangNormal`, `noBareNull` and `noFlt` are decidable predicates on the output; the harness evaluates
+them (op `c18.wf`) on the model's output for every document libyang accepts. -/
+theorem to_yang_idempotent_of_normal (rp rp' : List (Nat × String)) (d y : J)
+    (h : legacyToYang rp d = .ok y) (hn : yangNormal y = true) (hb : noBareNull y = true) (hf : noFlt y = true) :
+    legacyToYang rp' y = .ok y := by
+  simp only [legacyToYang, legacyToYangWith, bind_ok] at h
+  obtain ⟨dd, _, s, _, hconv⟩ := h
+  have hc := convertDict_second rp rp' 2 (.obj s) y hconv hf
+  cases y with
+  | obj l =>
+    cases l with
+    | nil => simp [yangNormal] at hn
+    | cons kv rest =>
+      cases rest with
+      | cons _ _ => simp [yangNormal] at hn
+      | nil =>
+        obtain ⟨k, v⟩ := kv
+        have hs := toYangStruct_fixpoint k v hn
+        simp only [toYangStruct] at hs
+        simp only [legacyToYang, legacyToYangWith, noneToEmpty_of_noBareNull _ hb, asObj, hs, hc, bind, Except.bind,
+          pure, Except.pure]
+  | _ => simp [yangNormal] at hn
+
+/-- **to_yang_idempotent**: for every well-formed document (decidable predicate `wfDoc`: the
+conversion succeeds and its result is YANG-normal, without bare null and without binary float) of
+any of the five kinds, converting the converted document again changes nothing – whatever repr
+table the second run is given. -/
+theorem to_yang_idempotent (rp rp' : List (Nat × String)) (d : J) (h : wfDoc rp d = true) :
+    ∃ y, legacyToYang rp d = .ok y ∧ legacyToYang rp' y = .ok y := by
+  unfold wfDoc at h
+  split at h
+  · rename_i y hy
+    simp only [Bool.and_eq_true] at h
+    exact ⟨y, hy, to_yang_idempotent_of_normal rp rp' d y hy h.1.1 h.1.2 h.2⟩
+  · cases h
+
+/-- a topology with per-degree targets of two kinds, design bands, a per-frequency loss list, a
+    Raman coefficient, a null and floats -/
+def wfTopo : J := .obj [
+  ("elements", .arr [
+    .obj [("uid", .str "roadm A"), ("type", .str "Roadm"),
+          ("params", .obj [("target_pch_out_db", .int (-20)),
+            ("per_degree_pch_out_db", .obj [("fiber 1", .flt 13849554016582762496)]),
+            ("per_degree_psd_out_mWperGHz", .obj [("trx A", .flt 4553247309662628348)]),
+            ("per_degree_design_bands", .obj [("fiber 1", .arr [.obj [("f_min", .flt 4820469601659060224), ("f_max", .flt 4820623201659060224)]])])]),
+          ("metadata", .obj [("location", .obj [("city", .null), ("region", .str "r"), ("latitude", .int 0), ("longitude", .flt 4609434218613702656)])])],
+    .obj [("uid", .str "fiber 1"), ("type", .str "Fiber"), ("type_variety", .str "SSMF"),
+          ("params", .obj [("length", .flt 4635329916471083008), ("length_units", .str "km"), ("con_in", .null),
+            ("loss_coef", .obj [("value", .arr [.flt 4596734067664517857, .flt 4596373779694328218]), ("frequency", .arr [.flt 4820300001659060224, .flt 4820524001659060224])]),
+            ("raman_coefficient", .obj [("g0", .arr [.int 0, .flt 4547007122018943789]), ("frequency_offset", .arr [.int 0, .flt 4796950003522207744]),
+              ("reference_frequency", .flt 4820940001659060224)])])]]),
+  ("connections", .arr [.obj [("from_node", .str "roadm A"), ("to_node", .str "fiber 1")]])]
+
+example : wfDoc [] wfTopo = true := by decide +kernel
+
+/-- an equipment library with two SI entries, a RamanFiber with raman_efficiency, an openroadm Edfa and an unnamed Roadm -/
+def wfEqpt : J := .obj [
+  ("Edfa", .arr [.obj [("type_variety", .str "oa"), ("type_def", .str "openroadm"), ("gain_flatmax", .int 27),
+     ("nf_coef", .arr [.flt 13783985880825014374, .flt 13812498263740769234, .flt 13826851596041169194, .flt 4630491361621426831])]]),
+  ("RamanFiber", .arr [.obj [("type_variety", .str "SSMF"), ("dispersion", .flt 4535550195151214168),
+     ("raman_efficiency", .obj [("cr", .arr [.int 0, .flt 4547007122018943789]), ("frequency_offset", .arr [.int 0, .flt 4796950003522207744])])]]),
+  ("Roadm", .arr [.obj [("target_pch_out_db", .int (-20)), ("add_drop_osnr", .int 38)]]),
+  ("SI", .arr [.obj [("f_min", .flt 4820469601659060224), ("power_range_db", .arr [.int 0, .int 0, .int 1])],
+               .obj [("type_variety", .str "lband"), ("power_range_db", .arr [.int (-2), .int 1, .flt 4602678819172646912])]])]
+
+example : wfDoc [] wfEqpt = true := by decide +kernel
+
+/-- a service document with a route whose index is not the first member, null N/M and a null mode -/
+def wfServ : J := .obj [
+  ("path-request", .arr [.obj [("request-id", .str "0"), ("source", .str "trx A"), ("destination", .str "trx B"),
+     ("bidirectional", .bool false),
+     ("path-constraints", .obj [("te-bandwidth", .obj [("trx_type", .str "Voyager"), ("trx_mode", .null),
+        ("effective-freq-slot", .arr [.obj [("N", .null), ("M", .null)]]), ("spacing", .flt 4766858406130614272),
+        ("max-nb-of-channel", .int 80), ("output-power", .flt 4563448591618756055), ("path_bandwidth", .flt 4771362005757984768)])]),
+     ("explicit-route-objects", .obj [("route-object-include-exclude", .arr [
+        .obj [("explicit-route-usage", .str "route-include-ero"), ("index", .int 0),
+              ("num-unnum-hop", .obj [("node-id", .str "roadm A"), ("hop-type", .str "LOOSE")])]])])]])]
+
+example : wfDoc [] wfServ = true := by decide +kernel
+
+def wfSpec : J := .obj [("spectrum", .arr [.obj [("f_min", .flt 4820472801659060224), ("f_max", .flt 4820527201659060224),
+  ("baud_rate", .flt 4764189814503243776), ("slot_width", .flt 4766858406130614272), ("roll_off", .flt 4594572339843380019), ("tx_osnr", .int 40)]])]
+
+example : wfDoc [] wfSpec = true := by decide +kernel
+
+def wfSim : J := .obj [("raman_params", .obj [("flag", .bool true), ("result_spatial_resolution", .flt 4666723172467343360),
+    ("solver_spatial_resolution", .int 50)]),
+  ("nli_params", .obj [("method", .str "gn_model_analytic"), ("dispersion_tolerance", .int 1),
+    ("phase_shift_tolerance", .flt 4591870180066957722), ("computed_channels", .arr [.int 1, .int 18])])]
+
+example : wfDoc [] wfSim = true := by decide +kernel
+
+/-! ### document level: `yang_to_legacy` is idempotent -/
+
+/-- **to_legacy_idempotent**: for every well-formed legacy document (decidable predicate
+`wfLegacyDoc`: legacy-normal, no `[null]`, numbers already numbers, accepted by the validation step)
+of any of the five kinds – in particular for what `yang_to_legacy` returned, which the harness checks
+with op `c18.wf` on every run – `yang_to_legacy` changes nothing. -/
+theorem to_legacy_idempotent (rp : List (Nat × String)) (l : J) (h : wfLegacyDoc rp l = true) :
+    yangToLegacy rp l = .ok l := by
+  simp only [wfLegacyDoc, Bool.and_eq_true] at h
+  obtain ⟨⟨⟨hn, hb⟩, hs⟩, hok⟩ := h
+  cases l with
+  | obj d =>
+    have h1 := toLegacyStruct_fixpoint d hn
+    have h2 := backStable_spec _ hs
+    have h3 := emptyToNone_of_noBoxedNull _ hb
+    cases hy : legacyToYang rp (J.obj d) with
+    | error e => simp [hy, isOk] at hok
+    | ok y =>
+      have hy' : legacyToYangWith convertRamanEfficiency rp (J.obj d) = .ok y := hy
+      simp only [yangToLegacy, yangToLegacyWith, hy', h3, h2, asObj, h1, bind, Except.bind, pure, Except.pure]
+  | _ => simp [legacyNormal] at hn
+
+/-- the normal form of a legacy document: through YANG and back -/
+def roundTrip (d : J) : PyR J := legacyToYang [] d >>= yangToLegacy []
+
+/-- what the document becomes after YANG and back is a well-formed legacy document -/
+def rtWf (d : J) : Bool :=
+  match roundTrip d with
+  | .ok l => wfLegacyDoc [] l
+  | .error _ => false
+
+/-- a second trip through YANG reproduces the first result exactly -/
+def rtStable (d : J) : Bool :=
+  match roundTrip d with
+  | .ok l => (match roundTrip l with
+    | .ok l2 => l2 == l
+    | .error _ => false)
+  | .error _ => false
+
+/-- non-vacuity of `to_legacy_idempotent`: the round-tripped example documents are well-formed -/
+example : rtWf wfTopo = true := by decide +kernel
+example : rtWf wfEqpt = true := by decide +kernel
+example : rtWf wfServ = true := by decide +kernel
+example : rtWf wfSpec = true := by decide +kernel
+example : rtWf wfSim = true := by decide +kernel
+
+/-- `roundtrip_structure` on the five witnesses: a second trip through YANG reproduces the normal form
+exactly (every degree, band, frequency entry, slot, request in place).
+PARTIAL – the general statement `∀ d, wfDoc d → roundTrip d = .ok l → roundTrip l = .ok l ∧ l ≈ d`
+(`≈` = same members under every key, numbers within half a unit of the declared digit) is not proved at
+document level.  Proved pieces: per-structure round trips (`degree_roundtrip`, `design_band_roundtrip`,
+`loss_coef_roundtrip`, `raman_coef_roundtrip`, `range_roundtrip`), the value bound (`fmt_error_bound`,
+`fmt_fixpoint`), and the two document-level idempotence theorems above.  Missing lemmas:
+(1) `forEachIn_congr`: lifting a per-params lookup equality (`∀ k, q.get? k = p.get? k`) through
+`onParams`/`forEachIn`/`onKey` to an extensional equality of documents;
+(2) `convertBack_convertDict_leaf`: `convertBack (precision? k) (convertDict (precisionD k) leaf)` is the
+leaf's normal form (`parseFloatBits (fmtBits b d)` = nearest double of the rounded decimal). -/
+theorem roundtrip_structure_partial :
+    rtStable wfTopo = true ∧ rtStable wfEqpt = true ∧ rtStable wfServ = true ∧ rtStable wfSpec = true ∧
+    rtStable wfSim = true := by
+  refine ⟨?_, ?_, ?_, ?_, ?_⟩ <;> decide +kernel
 
 /-! ### aliases -/
 
